@@ -589,6 +589,12 @@ def explore(cx, atom_eval, start=None, stop=()):
             if any(v is True for v in vs):
                 return True
             return False if all(v is False for v in vs) else None
+        if isinstance(e, ast.IfExp):
+            t = ev(e.test, env)
+            if t is None:
+                a, b = ev(e.body, env), ev(e.orelse, env)
+                return a if a == b else None
+            return ev(e.body if t else e.orelse, env)
         return None
     seen = set()
     todo = [(start or cfg.entry, ())]
